@@ -1,5 +1,5 @@
 """C07, nested part: trees of combinators of any depth, constructors with omitted arguments, the function-style
-policy constructors and Python's `sum()` — real `workflows.retry_policy` objects against `wfdriver policytree`
+policy constructors and Python's `sum()` — real `workflows.retry_policy` objects against `wfdriver rptree`
 (K) and against the documented behaviour written down here independently of the model (S).
 
 A case is a JSON-able *spec*; `build_*` makes the real object from it, `line_*` the driver line, `doc_bounds` the
@@ -466,13 +466,13 @@ def tree_stream(env: Env, out: Outcome, n: int) -> None:
     for s in ops[:3]:
         out.sample({"op": s})
     try:
-        mo = Driver("policytree").run(ops)
+        mo = Driver("rptree").run(ops)
     except Exception as ex:
-        out.divergences.append(Divergence("policytree", 0, "<driver>", repr(ex), ""))
+        out.divergences.append(Divergence("rptree", 0, "<driver>", repr(ex), ""))
         return
     out.traces_validated += len(ops)
     out.disagreements_checked += len(ops)
-    d = diff_streams("policytree", ops, mo, exp)
+    d = diff_streams("rptree", ops, mo, exp)
     if d is not None:
         out.divergences.append(d)
 
